@@ -818,6 +818,16 @@ class Canon:
         if isinstance(fn, tuple) and fn[:1] == ("g",) and fn[1] in ("sum", "any", "all", "min", "max", "sorted", "set", "frozenset", "tuple", "list", "dict") \
                 and len(args) >= 1 and isinstance(args[0], tuple) and args[0][:2] == ("comp", "list"):
             args = [("comp", "gen") + tuple(args[0][2:])] + list(args[1:])
+        # Class.method(obj, args) == obj.method(args)  (an instance method of a repository class called through the class)
+        if isinstance(fn, tuple) and len(fn) == 3 and fn[0] == "a" and isinstance(fn[1], tuple) and fn[1][:1] == ("g",) and args and not kwargs \
+                and self.model is not None and not any(isinstance(a, tuple) and a[:1] == ("star",) for a in args):
+            try:
+                tcls = self.model.resolve_name(self.fi.module, fn[1][1])
+            except Exception:
+                tcls = None
+            meth = getattr(tcls, "methods", {}).get(fn[2]) if tcls is not None and hasattr(tcls, "methods") else None
+            if meth is not None and meth.kind == "method" and args[0] != ("self",):
+                return mk_call(("a", args[0], fn[2]), list(args[1:]), [])
         # operator.ge(a, b) == a >= b  (and the other comparison / arithmetic functions of the operator module)
         if isinstance(fn, tuple) and fn[:2] == ("a", ("g", "operator")) and len(args) == 2 and not kwargs:
             cmp_ops = {"lt": "Lt", "le": "LtE", "gt": "Gt", "ge": "GtE", "eq": "Eq", "ne": "NotEq"}
